@@ -161,8 +161,8 @@ impl Check for C16 {
     }
     fn lanes(&self, tier: Tier) -> Vec<(&'static str, usize, usize)> {
         match tier {
-            Tier::Quick => vec![("definite", 8000, 300), ("derive", 6000, 300), ("multipath", 4000, 300)],
-            Tier::Thorough => vec![("definite", 800_000, 400), ("derive", 600_000, 400), ("multipath", 400_000, 400)],
+            Tier::Quick => vec![("definite", 160_000, 300), ("derive", 120_000, 300), ("multipath", 80_000, 300)],
+            Tier::Thorough => vec![("definite", 3_200_000, 400), ("derive", 2_400_000, 400), ("multipath", 1_600_000, 400)],
         }
     }
     fn run_case(&self, lane: &str, src: &mut Src, rep: &mut Report) -> Result<(), Failure> {
